@@ -144,8 +144,46 @@ class ConstructInterface(Interface):
     def construct_error(self, eng, st, ec):
         st.assume(eng.exc_sub_term(ec, 'ConstructError'))
 
+    def wrapper_stream(self, eng, stream, st):
+        """a RestreamedBytesIO handed to a sub-construct: the sub-construct may call any of its methods any number of times,
+        so afterwards its buffers and the underlying stream are arbitrary (nothing is assumed; in particular NOT that short
+        writes of the underlying stream were noticed)"""
+        from .builtins import havoc_object
+        o = st.get(stream)
+        f = dict(o.fields)
+        for k in ('rbuffer', 'wbuffer'):
+            f[k] = eng.fresh_bytes(st, 'rs_' + k)
+        n = fresh('rs_since', t.INT)
+        st.assume(t.ge(n, t.ZERO))
+        f['sincereadwritten'] = VInt(n)
+        st.put(stream, OObject(o.cls, f))
+        sub = f.get('substream')
+        if isinstance(sub, VRef) and isinstance(st.get(sub), OStream):
+            havoc_object(eng, st, sub, 'rs_sub')
+
+    def sub_on_wrapper(self, eng, sc, stream, ctx, path, st, what):
+        H, D = self.H(st)
+        c = self.ctx_addr(eng, ctx, st)
+        ok = fresh('W_ok', t.BOOL)
+        good, bad = eng.fork(st, ok)
+        out = []
+        for s2, isgood in ((good, True), (bad, False)):
+            if s2 is None:
+                continue
+            self.wrapper_stream(eng, stream, s2)
+            self.apply_heap_outcome(eng, s2, fresh('W_H', 'Heap'), fresh('W_D', 'Dom'), c)
+            if isgood:
+                out.append((s2, VDyn(fresh('W_val', t.VAL))))
+            else:
+                ec = fresh('W_exc', t.INT)
+                self.construct_error(eng, s2, ec)
+                out.append((s2, Raised(VExc(ec, self.exc_path(eng, s2, path, what), origin='sub-construct %s %s failed' % (sc.label, what), explicit_path=True))))
+        return out
+
     def sub_parse(self, eng, sc, stream, ctx, path, st):
         o = st.get(stream) if isinstance(stream, VRef) else None
+        if isinstance(o, OObject) and o.cls == 'RestreamedBytesIO':
+            return self.sub_on_wrapper(eng, sc, stream, ctx, path, st, 'parse')
         if not isinstance(o, OStream):
             raise OutOfReach('sub-construct parse on %r' % (stream,))
         H, D = self.H(st)
@@ -178,7 +216,7 @@ class ConstructInterface(Interface):
                 good.put(stream, o.replace(pos=newpos))
             else:
                 from .builtins import havoc_object
-                havoc_object(eng, good, stream, 'sub')
+                self.havoc_adv(eng, good, stream)
             self.apply_heap_outcome(eng, good, H2, D2, c)
             good.log.append(('parse', sc.ident, o, c, H, D, val, end))
             if getattr(sc, 'returns', None) == 'int':
@@ -198,8 +236,20 @@ class ConstructInterface(Interface):
             out.append((bad, Raised(VExc(ec, self.exc_path(eng, bad, path, 'parse'), origin='sub-construct %s parse failed' % sc.label, explicit_path=True))))
         return out
 
+    def havoc_adv(self, eng, st, stream):
+        """after a successful sub-construct call on an adversarial stream: interface clause 'a normal return does not hide a
+        short read/write' (every class establishes it: no-silent-short-io)"""
+        from .builtins import havoc_object
+        o = st.get(stream)
+        before = o.extra['__short'].t
+        havoc_object(eng, st, stream, 'sub')
+        after = st.get(stream).extra['__short'].t
+        st.assume(t.implies(t.not_(before), t.not_(after)))
+
     def sub_build(self, eng, sc, obj, stream, ctx, path, st):
         o = st.get(stream) if isinstance(stream, VRef) else None
+        if isinstance(o, OObject) and o.cls == 'RestreamedBytesIO':
+            return self.sub_on_wrapper(eng, sc, stream, ctx, path, st, 'build')
         if not isinstance(o, OStream):
             raise OutOfReach('sub-construct build on %r' % (stream,))
         H, D = self.H(st)
@@ -231,7 +281,10 @@ class ConstructInterface(Interface):
                     s2.log.append(('build', sc.ident, o, c, H, D, ov, ret, w))
                     out.append((s2, VDyn(ret)))
             else:
-                havoc_object(eng, good, stream, 'sub')
+                if o.model == 'adv':
+                    self.havoc_adv(eng, good, stream)
+                else:
+                    havoc_object(eng, good, stream, 'sub')
                 self.apply_heap_outcome(eng, good, H2, D2, c)
                 out.append((good, VDyn(ret)))
         if bad is not None:
@@ -285,7 +338,10 @@ class ConstructInterface(Interface):
         if good is not None:
             n = fresh('A_val', t.INT)
             good.assume(t.ge(n, t.ZERO))
-            havoc_object(eng, good, stream, 'asz', writes=False)
+            if o.model == 'adv':
+                self.havoc_adv(eng, good, stream)
+            else:
+                havoc_object(eng, good, stream, 'asz', writes=False)
             out.append((good, VInt(n)))
         if bad is not None:
             ec = fresh('A_exc', t.INT)
@@ -431,8 +487,14 @@ class ConstructInterface(Interface):
                 elif fl[0] == 'raise':
                     out.append((s2, Raised(fl[1])))
             return out
-        if cls.name == 'Container' and len(args) == 1 and not kws:
+        if cls.name == 'Container' and len(args) == 1:
             a0 = args[0]
+            if isinstance(a0, VRef) and isinstance(st.get(a0), ODict) and st.get(a0).items is not None:
+                merged = {('str', k): v for k, v in kws.items()}
+                items = dict(st.get(a0).items)
+                items.update(merged)
+                if all(k[0] == 'str' for k in items):
+                    return self.new_container(eng, [], {k[1]: v for k, v in items.items()}, st)
             if isinstance(a0, VDyn):
                 # Container(obj): a new container with the entries of obj
                 r0 = self.new_container(eng, [], {}, st)
@@ -442,6 +504,8 @@ class ConstructInterface(Interface):
                 out = []
                 if a is not None:
                     for s2, _ in self.container_update(eng, a.get(ref).addr, t.app('ref', t.INT, a0.t), a):
+                        for k, v in kws.items():
+                            self.hset(s2, s2.get(ref).addr, S(k), eng.to_dyn(v, s2))
                         out.append((s2, ref))
                 if b is not None:
                     out.extend(eng.raise_(b, 'TypeError', origin='Container(non-mapping)'))
@@ -451,7 +515,8 @@ class ConstructInterface(Interface):
     def bytes_method(self, eng, recv, name, args, kws, st):
         if name == 'rstrip' and len(args) == 1:
             pad = self.models.as_bytes(eng, args[0], st)
-            if pad is not None and pad.len.op == 'int' and pad.len.args[0] == 1:
+            if pad is not None and (pad.len.op == 'int' and pad.len.args[0] == 1 or st.known(t.eq(pad.len, t.ONE)) is True
+                                    or st.known(t.eq(t.ONE, pad.len)) is True):
                 prelude.define('rstrip_len', """(define-fun-rec rstrip_len ((a (Array Int Int)) (off Int) (n Int) (p Int)) Int
   (ite (<= n 0) 0 (ite (= (select a (+ off (- n 1))) p) (rstrip_len a off (- n 1) p) n)))""")
                 n2 = t.app('rstrip_len', t.INT, recv.arr, recv.off, recv.len, pad.at(t.ZERO))
@@ -542,3 +607,17 @@ class ConstructInterface(Interface):
             bad.assume(t.str_prefixof(S('(parsing)' if meth == 'parse' else '(building)'), p.t))
             out.append((bad, Raised(VExc(ec, p, origin='public %s of sub-construct %s failed (path restarts)' % (meth, sc.label), explicit_path=True))))
         return out
+
+
+    def list_comprehension(self, eng, node, st):
+        """[<constant> for sc in self.subcons]: a list of len(subcons) copies of the constant"""
+        if len(node.generators) == 1 and not node.generators[0].ifs and isinstance(node.elt, ast.Constant):
+            res = eng.ev(node.generators[0].iter, st.clone())
+            if len(res) == 1 and isinstance(res[0][1], VSubList):
+                n = t.app('sl_len', t.INT, res[0][1].ident)
+                st.assume(t.ge(n, t.ZERO))
+                elt = eng.to_dyn(eng.from_const(node.elt.value, st), st)
+                arr = t.T('VArr', 'constvarr', ())
+                arr._s = '((as const (Array Int Val)) %s)' % elt.smt()
+                return [(st, st.alloc(OList(arr=arr, ln=n, ekind='val'), 'list'))]
+        return None
